@@ -666,6 +666,7 @@ func main() {
 	for _, c := range staleGlue() {
 		sink.DirectFail("coverage", "gen_future.py", c)
 	}
+	directChecks += panicValueChecks(sink)
 	for i := 0; i < *n; i++ {
 		op := genScenario(r)
 		sink.Case(op.String(), func() string { return runCase(op) })
